@@ -69,6 +69,10 @@ pub struct FailCase {
     /// which they fill before they look at their input
     #[serde(default)]
     pub member_err_pipe: bool,
+    /// the first command writes to its stdout for as long as somebody reads it, so it
+    /// cannot finish before the command behind it lets go
+    #[serde(default)]
+    pub first_floods: bool,
 }
 
 pub fn compatible(stdin: SIn, term: STerm) -> bool {
@@ -88,7 +92,9 @@ struct RunResult {
 fn build_and_run(case: &FailCase, helper: std::path::PathBuf, markers: std::path::PathBuf, infile: std::path::PathBuf) -> RunResult {
     let mut cmds: Vec<Exec> = vec![];
     for i in 0..case.n {
-        let mut e = if case.cause == Cause::Missing && i == case.k {
+        let mut e = if case.first_floods && i == 0 && case.k > 0 {
+            Exec::cmd(&helper).arg("flood").arg("1")
+        } else if case.cause == Cause::Missing && i == case.k {
             Exec::cmd("/nonexistent/verif-no-such-program").arg("x")
         } else if case.cause == Cause::BadConfig && i == case.k {
             Exec::cmd(&helper).arg("stage").arg("Tx").arg("0").arg("0").arg("0").arg(&markers).arg(i.to_string()).stderr(Redirection::Merge)
@@ -209,7 +215,7 @@ pub fn check_case(ctx: &Ctx, case: &FailCase, rep: &mut CaseReport) -> CaseResul
     let fail = |sig: &str, msg: String| Err(Fail::new(format!("C14:{}", sig), format!("{}\ncase={:?}", msg, case)));
 
     if case.k >= 1 || case.cause == Cause::Pipe {
-        rep.nontrivial(format!("n{}|k{}|{:?}|{:?}|{:?}|det{}|linger{}|igterm{}|errlines{}|ids{}|ownerr{}", case.n, case.k, case.cause, case.stdin, case.term, case.detached as u8, case.linger_ms, case.ign_term as u8, case.err_lines, case.ids as u8, case.member_err_pipe as u8));
+        rep.nontrivial(format!("n{}|k{}|{:?}|{:?}|{:?}|det{}|linger{}|igterm{}|errlines{}|ids{}|ownerr{}|flood{}", case.n, case.k, case.cause, case.stdin, case.term, case.detached as u8, case.linger_ms, case.ign_term as u8, case.err_lines, case.ids as u8, case.member_err_pipe as u8, case.first_floods as u8));
     }
 
     let before = fd_snapshot();
@@ -360,7 +366,10 @@ pub fn check_case(ctx: &Ctx, case: &FailCase, rep: &mut CaseReport) -> CaseResul
         return fail("orphans-never-finish", format!("detached commands of the failed pipeline are still running after 10 s (their pipes were not closed): {}", e));
     }
     // started markers form a prefix (and for a missing program exactly 0..k)
-    let st = started(&markers, case.n);
+    let mut st = started(&markers, case.n);
+    if case.first_floods && case.k > 0 {
+        st[0] = true; // (the flooding helper leaves no marker)
+    }
     let first_not = st.iter().position(|s| !*s).unwrap_or(case.n);
     if st[first_not..].iter().any(|s| *s) {
         return fail("later-command-started", format!("started markers {:?}", st));
@@ -392,7 +401,7 @@ pub fn enumerate(tier: Tier) -> Vec<FailCase> {
         for stdin in [SIn::Inherit, SIn::Pipe, SIn::File] {
             for term in [STerm::Popen, STerm::Join, STerm::StreamStdin] {
                 if compatible(stdin, term) {
-                    v.push(FailCase { n, k: n - 1, cause: Cause::BadConfig, stdin, term, detached: false, linger_ms: 0, ign_term: false, err_lines: 0, ids: false, member_err_pipe: false });
+                    v.push(FailCase { n, k: n - 1, cause: Cause::BadConfig, stdin, term, detached: false, linger_ms: 0, ign_term: false, err_lines: 0, ids: false, member_err_pipe: false, first_floods: false });
                 }
             }
         }
@@ -405,28 +414,32 @@ pub fn enumerate(tier: Tier) -> Vec<FailCase> {
                             continue;
                         }
                         for detached in [false, true] {
-                            v.push(FailCase { n, k, cause: *cause, stdin, term, detached, linger_ms: 0, ign_term: false, err_lines: 0, ids: false, member_err_pipe: false });
+                            v.push(FailCase { n, k, cause: *cause, stdin, term, detached, linger_ms: 0, ign_term: false, err_lines: 0, ids: false, member_err_pipe: false, first_floods: false });
                         }
                         if *cause == Cause::Missing && k >= 1 && matches!(term, STerm::Popen | STerm::Join | STerm::StreamStdin | STerm::StreamStdout) && n <= 4 {
                             // started commands with a stderr pipe of their own, filled beyond its capacity
-                            v.push(FailCase { n, k, cause: *cause, stdin, term, detached: false, linger_ms: 0, ign_term: false, err_lines: 15000, ids: false, member_err_pipe: true });
+                            v.push(FailCase { n, k, cause: *cause, stdin, term, detached: false, linger_ms: 0, ign_term: false, err_lines: 15000, ids: false, member_err_pipe: true, first_floods: false });
+                        }
+                        if *cause == Cause::Missing && k >= 2 && matches!(term, STerm::Popen | STerm::Join | STerm::StreamStdout) && matches!(stdin, SIn::Inherit | SIn::File) && n <= 4 {
+                            // ... and a first command that cannot finish before the second lets go
+                            v.push(FailCase { n, k, cause: *cause, stdin, term, detached: false, linger_ms: 0, ign_term: false, err_lines: 15000, ids: false, member_err_pipe: true, first_floods: true });
                         }
                         if *cause == Cause::Missing {
                             // commands that also change identity (to the identity they already have)
-                            v.push(FailCase { n, k, cause: *cause, stdin, term, detached: false, linger_ms: 0, ign_term: false, err_lines: 0, ids: true, member_err_pipe: false });
+                            v.push(FailCase { n, k, cause: *cause, stdin, term, detached: false, linger_ms: 0, ign_term: false, err_lines: 0, ids: true, member_err_pipe: false, first_floods: false });
                         }
                         // started commands that take their time, ignore SIGTERM, or have
                         // filled the shared stderr pipe before the failure is noticed
                         if k >= 1 && *cause == Cause::Missing && (n <= 3 || tier == Tier::Thorough) {
-                            v.push(FailCase { n, k, cause: *cause, stdin, term, detached: false, linger_ms: 300, ign_term: false, err_lines: 0, ids: false, member_err_pipe: false });
-                            v.push(FailCase { n, k, cause: *cause, stdin, term, detached: false, linger_ms: 600, ign_term: true, err_lines: 0, ids: false, member_err_pipe: false });
+                            v.push(FailCase { n, k, cause: *cause, stdin, term, detached: false, linger_ms: 300, ign_term: false, err_lines: 0, ids: false, member_err_pipe: false, first_floods: false });
+                            v.push(FailCase { n, k, cause: *cause, stdin, term, detached: false, linger_ms: 600, ign_term: true, err_lines: 0, ids: false, member_err_pipe: false, first_floods: false });
                             // detached commands that take their time: not to be waited for
-                            v.push(FailCase { n, k, cause: *cause, stdin, term, detached: true, linger_ms: 400, ign_term: false, err_lines: 0, ids: false, member_err_pipe: false });
+                            v.push(FailCase { n, k, cause: *cause, stdin, term, detached: true, linger_ms: 400, ign_term: false, err_lines: 0, ids: false, member_err_pipe: false, first_floods: false });
                             if term == STerm::Communicate {
-                                v.push(FailCase { n, k, cause: *cause, stdin, term, detached: false, linger_ms: 400, ign_term: false, err_lines: 0, ids: false, member_err_pipe: false });
+                                v.push(FailCase { n, k, cause: *cause, stdin, term, detached: false, linger_ms: 400, ign_term: false, err_lines: 0, ids: false, member_err_pipe: false, first_floods: false });
                             }
                             if matches!(term, STerm::Capture | STerm::Communicate) {
-                                v.push(FailCase { n, k, cause: *cause, stdin, term, detached: false, linger_ms: 0, ign_term: false, err_lines: 15000, ids: false, member_err_pipe: false });
+                                v.push(FailCase { n, k, cause: *cause, stdin, term, detached: false, linger_ms: 0, ign_term: false, err_lines: 15000, ids: false, member_err_pipe: false, first_floods: false });
                             }
                         }
                     }
